@@ -173,11 +173,17 @@ def random_query(rng, nleaves, leaf_fn, pneg=0.25, pparen=0.3):
             l = build(k)
             r = build(n - k)
             q = ('logic', rng.choice(['and', 'or']), l, r)
-        r_ = rng.random()
-        if r_ < pneg:
-            q = ('paren', True, q)
-        elif r_ < pneg + pparen * (0.3 if n == 1 else 1.0):
-            q = ('paren', False, q)
+        # zero, one or several directly stacked parenExp wrappers (with or without NOT)
+        while True:
+            r_ = rng.random()
+            if r_ < pneg:
+                q = ('paren', True, q)
+            elif r_ < pneg + pparen * (0.3 if n == 1 else 1.0):
+                q = ('paren', False, q)
+            else:
+                break
+            if rng.random() < 0.6:
+                break
         return q
     return normalize(build(nleaves)), info
 
@@ -215,7 +221,9 @@ def object_for(rng, info, noise=True):
     return obj(d)
 
 # all shapes with k leaves over binary and/or, optional not/paren at each node (bounded, exhaustive)
-def all_shapes(k, wrappers=('', 'not', 'paren')):
+STACKED = ('', 'not', 'paren', 'not not', 'not paren', 'paren not', 'not not not')
+
+def all_shapes(k, wrappers=STACKED):
     """yields functions leaves-list -> query for every tree shape with k leaves"""
     def trees(n):
         if n == 1:
@@ -228,7 +236,7 @@ def all_shapes(k, wrappers=('', 'not', 'paren')):
                         yield ('B', op, l, r)
     def wrap(t):
         if t[0] == 'L':
-            for w in ('', 'not'):
+            for w in ('', 'not', 'not not', 'paren not'):
                 yield ('W', w, t)
         else:
             for l in wrap(t[2]):
@@ -246,8 +254,8 @@ def instantiate(shape, leaf_list):
             q = next(it)
         else:
             q = ('logic', inner[1], go(inner[2]), go(inner[3]))
-        if w == 'not': return ('paren', True, q)
-        if w == 'paren': return ('paren', False, q)
+        for x in reversed(w.split()):
+            q = ('paren', x == 'not', q)
         return q
     return normalize(go(shape))
 
